@@ -1,11 +1,6 @@
 SPECIFICATION SSpec
 CONSTANTS
-  NB = 2
-  IL = 2
-  RowSz = 2
-  Width = 2
-  Track = FALSE
-  Deviations <- AsImplemented
+  Config <- ImplN2
   PortCap = 3
   PostCap = 1
   Payloads <- MCPayloads
